@@ -192,9 +192,9 @@ def stability(ctx, aotools, nx, ps, r0, L0, ncol, rng, long_rows):
             scr.add_row()
         sK = scr._scrn[:depth].ravel()
         nK = float(np.linalg.norm(sK))
-        floor = 1e-9 * n0 * max(nFK, 1e-300) + 1e-290
+        floor = 1e-9 * n0 * max(nFK, 1e-300) + 1e-200
         # the real execution follows the observed recursion ...
-        ctx.close("execution_follows_recursion:" + name, sK, FK @ s0[:depth].ravel(), 1e-7 * nFK * n0 + 1e-290, "stability:execution_differs_from_recursion", dict(wit, start=name, K=K))
+        ctx.close("execution_follows_recursion:" + name, sK, FK @ s0[:depth].ravel(), 1e-7 * nFK * n0 + 1e-200, "stability:execution_differs_from_recursion", dict(wit, start=name, K=K))
         # ... and contracts as its powers do (bounded progress)
         ctx.check(np.isfinite(nK) and nK <= 1.001 * nFK * n0 + floor, "stability:no_contraction:" + name,
                   "after %d zero-innovation rows |state| = %.3g, start %.3g, |F^K| = %.3g, rho^K = %.3g" % (K, nK, n0, nFK, rho ** K), dict(wit, start=name, K=K))
